@@ -29,7 +29,7 @@ ASSUMPTIONS = ["rounding-level equivalence: threshold 2e-8 x system scale for <=
                "corrector2=1 is excluded from the rounding clauses: the library's inverse second corrector is not the exact inverse map (U(-a,-b) differs from U(a,b)^-1 in the order of the outer drifts), so safe and unsafe mode differ at truncation level there (measured up to 3e-3)",
                "EOS takes part in the idempotence clause only: its agreement with safe mode is a truncation-order statement about a pure function of dt (not decided here)",
                "observers that read particle data synchronise first, as the documentation requires"]
-PROBES = ["observer_on_unsynchronized_state", "sync_twice", "sync_thrice", "copy_observer", "archive_observer", "bitwise_clause_checked", "safe_vs_unsafe_checked", "idempotence_checked"]
+PROBES = ["observer_on_unsynchronized_state", "sync_twice", "sync_thrice", "copy_observer", "archive_observer", "bitwise_clause_checked", "safe_vs_unsafe_checked", "idempotence_checked", "timestep_modification_callback"]
 
 INTEGS = ["whfast", "whfast", "whfast", "saba", "saba", "mercurius", "eos"]
 OBS = ["sync", "sync2", "sync3", "energy", "angmom", "orbits", "copy", "copy_nosync", "bytes", "bytes_nosync", "equal", "snapshot", "snapshot_nosync",
@@ -54,6 +54,11 @@ def generate(rng, tier, index):
         o["ri_%s.keep_unsynchronized" % integ] = c.choice([0, 1, 1])
     cfg["opts"] = o
     cfg["alloc"] = c.choice([1, 2])
+    pt = rng.derive("ptm")
+    if integ in ("whfast", "saba", "mercurius") and not o.get("ri_%s.keep_unsynchronized" % integ) and pt.chance(0.3):
+        # a user callback that edits velocities between steps: the library synchronises before it and has to re-derive its cached
+        # coordinates afterwards, in unsafe mode just as in safe mode
+        cfg["ptm"] = pt.choice(["pre", "post"])
     e = rng.derive("events")
     events = []
     for i in range(e.randint(1, 8)):
@@ -265,6 +270,8 @@ def execute(case, ctx):
                 Sf.steps(case["tail"])
                 Sf.synchronize()
                 probe("safe_vs_unsafe_checked")
+                if cfg.get("ptm"):
+                    probe("timestep_modification_callback")
                 d, scale = maxdiff(Ref, Sf)
                 if not (d <= tol):
                     viol("rounding", "safe_mode=0 + synchronize differs from safe mode beyond rounding", "max relative difference %.3g after %d steps (%s, opts %s)" % (d, total, integ, cfg["opts"]), key="rounding:safe:%s" % integ)
